@@ -105,8 +105,19 @@ class Fn(Val):
         return "fn %s" % self.desc.get("def")
 
 
+class FnSet(Val):
+    """One of several known function items (a pointer chosen among crate functions)."""
+    __slots__ = ("fns",)
+
+    def __init__(self, fns):
+        self.fns = tuple(fns)
+
+    def __repr__(self):
+        return "fn{%s}" % ", ".join(str(f.desc.get("def")) for f in self.fns)
+
+
 class FnPtr(Val):
-    """Function pointer; target is a Fn / closure Struct, or None for an environment callback."""
+    """Function pointer; target is a Fn / FnSet / closure Struct, or None for an environment callback."""
     __slots__ = ("target", "ty")
 
     def __init__(self, target, ty=None):
